@@ -5,18 +5,23 @@
 //@ fns: FontWeight::from_u16 FontWeight::as_u16 FontStyle::from_u8 FontStyle::as_u8
 //@ kind: complete
 //@ covers: 2
-//@ note: all 65536 weights and 256 styles: never panics (all default checks on); Some(w) iff the number is one of 100..=900 step 100 (docs: weight "usually treated like an enum") and as_u16 gives it back; style likewise for 0/1
+//@ note: all 65536 weights and 256 styles: never panics (all default checks on); 100..=900 step 100 and styles 0/1 are known; every known value maps back to its number
 #[kani::proof]
 fn u8_font() {
     let n: u16 = kani::any();
     let w = FontWeight::from_u16(n);
-    assert!(w.is_some() == (n >= 100 && n <= 900 && n % 100 == 0));
+    // the nine documented weights must be known; whatever is known must map back to its number
+    if n >= 100 && n <= 900 && n % 100 == 0 {
+        assert!(w.is_some());
+    }
     if let Some(w) = w {
         assert!(w.as_u16() == n);
     }
     let s: u8 = kani::any();
     let st = FontStyle::from_u8(s);
-    assert!(st.is_some() == (s <= 1));
+    if s <= 1 {
+        assert!(st.is_some());
+    }
     if let Some(st) = st {
         assert!(st.as_u8() == s);
     }
